@@ -111,6 +111,11 @@ check("C33", "property test against a reference model of first-match semantics: 
       "Rejections (incompleteness of the exhaustiveness check) are counted, not judged; sample domains are small (all enum members, every integer of an interval, representative others).",
       "DESIGN.md §3 C33")
 
+check("C26", "Hypothesis property test (python3-vt) of the runtime classes against the builtin operations on the unwrapped values",
+      "Operand pairs for every arithmetic/comparison operator between the Nat, Int, Float, Bool wrappers and plain ints/floats (integers to +-2**70, boundary values, NaN, infinities, signed zeros, subnormals), mutable wrappers with operands of their own kind for the operations their class declares, unary operations, Str and List operations over Unicode text; the result must equal the builtin's (bit-exact floats, same exception type), be an instance of the promised wrapper (Nat+Nat / Nat*Nat stay Nat, Nat op Int and Int op Int are Int, Float op number is Float, Str results are Str) and no Nat may be negative. Failures are shrunk with Hypothesis' own shrinker.",
+      "The promised-class table is the one in the property statement, not derived from the .d.er declarations; cross-kind mutable combinations (IntMut with Float, wrapper with a mutable right operand) are outside the generated domain.",
+      "DESIGN.md §3 C26", engine="pyhyp")
+
 NOT_APPLICABLE = {}
 
 def main():
